@@ -28,6 +28,17 @@ Oracle    : a reference list of appended commands with the sound tolerance for t
             range; after flush + wait the on-disk decode equals the in-memory view.  Every operation
             runs under a SIGALRM bound and every flusher join under a timeout: a deadlock is a failure,
             not a hung check; a reader entry left in the flusher queue is detected structurally.
+Sessions  : the end of the session is part of the history model (vlib/c12_exit.py).  One case = one whole
+            session played in a CHILD interpreter that really exits: buffer size 1..8 / 100, number of commands
+            k x buffersize, k x buffersize +- 1, 1 or free, $HISTCONTROL / ignore regex, JSON and SQLite, explicit
+            `history flush` (the real alias) at generated points, six ways of ending (XSH.unload(), `exit`,
+            plain end of program with only the atexit handler, sys.exit(), unhandled exception, SIGTERM), an
+            optional generated delay in the background flusher so that it is still at work when the session
+            ends.  Two modes: a driver that bootstraps XSH.load() + Shell(shell_type="none") and records through
+            BaseShell._append_history, and the real `python -m xonsh --no-rc -i` reading the commands from a
+            pipe (delay through the env-guarded schedule points of xonsh/_verif.py).  Afterwards the parent
+            decodes the session's store: every recorded command no reading of the exclusion rules drops is
+            there exactly once, in order, verbatim.
 lazyjson  : pure round trip - any JSON-able object written with ljdump, every node addressed through the
             embedded offsets/sizes index (key, index, slice, iteration, load() at every level, data
             section located by `locs`) equals the original, with the type of every leaf.
@@ -56,10 +67,14 @@ RULE = ("one case = one history of append / flush / release / wait / clear / reo
         "save-cwd settings (or one object written with ljdump and read back node by node); non-trivial = "
         "JSON: at least one read issued after >= 1 completed flush while the buffer is non-empty (the read "
         "spans the memory/disk split); SQLite: a by-index read checked against the table after >= 2 stored "
-        "commands; lazyjson: an object with >= 2 container levels; distinct = hash of (backend, parameters, "
-        "operation list) / of the object")
+        "commands; lazyjson: an object with >= 2 container levels; session family: one whole session (buffer "
+        "size, commands, `history flush` points, way of ending, flusher delay) played in a child interpreter that "
+        "really exits, its store decoded afterwards by the parent - non-trivial = JSON session with >= 1 periodic "
+        "(buffer-full) flush / SQLite session with >= 2 stored commands; distinct = hash of (backend, parameters, "
+        "operation list) / of the object / of the session")
 
 F1, F2, F3, F4, F5, F6 = "C12-F1", "C12-F2", "C12-F3", "C12-F4", "C12-F5", "C12-F6"
+F7 = "C12-F7"      # predicate and exclusion live in vlib/c12_exit.py (session family)
 
 OP_TIMEOUT = 10.0       # seconds a single operation may take (typical cost: 1 ms)
 JOIN_TIMEOUT = 10.0     # seconds a released flusher thread may take to finish
@@ -1554,10 +1569,18 @@ def worker_lazyjson(arg):
 
 def worker_any(task):
     kind, arg = task
+    if kind == "sessions":
+        from vlib import c12_exit
+
+        return c12_exit.worker_sessions(arg)
     return worker_machine(arg) if kind == "machine" else worker_lazyjson(arg)
 
 
 def check_case(case, exclude=()):
+    if case.get("family") == "session":
+        from vlib import c12_exit
+
+        return c12_exit.check_session(case, _state["scratch"])[0]
     if case.get("backend") == "lazyjson":
         return check_lazyjson(case)
     f, _ = check_history(case, exclude)
@@ -1588,11 +1611,20 @@ def main(run):
     files = [p for p in sorted(glob.glob(os.path.join(common.REPLAY_DIR, PROP, "*.json")))
              if not os.path.basename(p).startswith("violation-")]
     cases = []
+    registered = {e.get("id") for e in run.known}
+    cache = {}
     for p in files:
         with open(p) as f:
             body = json.load(f)
-        cases.append(body.get("case", body))
-    cache = {}
+        c = body.get("case", body)
+        fid = c.get("finding") if isinstance(c, dict) else None
+        if fid and fid not in registered:
+            # replay of a finding that is proposed but not (yet) listed in known_findings.json: its shape is
+            # excluded from generation by its narrow predicate; say so instead of judging it
+            run.stats.notes.append("replay of %s skipped: the finding is not listed in %s" % (fid, common.KNOWN_FILE))
+            cache[json.dumps(c, sort_keys=True)] = None
+            continue
+        cases.append(c)
     if cases:
         for c, r in zip(cases, _replays_in_worker(run, cases)):
             cache[json.dumps(c, sort_keys=True)] = r
@@ -1618,7 +1650,27 @@ def main(run):
                                    os.path.join(run.scratch, "l%d" % w), open_ids)))
     for kind, a in tasks:
         os.makedirs(a[5] if kind == "machine" else a[2], exist_ok=True)
-    common.pool_map(run, __name__, "worker_any", tasks, procs=len(tasks))
+    # whole sessions in child interpreters (vlib/c12_exit.py); the children mostly sleep / start up, so these
+    # workers go first and overlap with the machines
+    from vlib import c12_exit
+
+    tabledir = c12_exit.prepare_tables(run.scratch)
+    fixed_ids = sorted(run.known_fixed)
+    n_drv, n_xsh = run.n(90, 1400), run.n(30, 450)
+    sess = []
+    for w in range(2):
+        sc = os.path.join(run.scratch, "x%d" % w)
+        os.makedirs(sc, exist_ok=True)
+        sess.append(("sessions", ("driver", common.worker_seed(run.seed, 300 + w), n_drv, sc, 3, tabledir, fixed_ids)))
+    sc = os.path.join(run.scratch, "x2")
+    os.makedirs(sc, exist_ok=True)
+    sess.append(("sessions", ("xonsh", common.worker_seed(run.seed, 310), n_xsh, sc, 3, tabledir, fixed_ids)))
+    tasks = sess + tasks
+    try:
+        cap = max(1, int(os.environ.get("VERIF_PROCS") or 16))
+    except ValueError:
+        cap = 16
+    common.pool_map(run, __name__, "worker_any", tasks, procs=min(len(tasks), cap))
 
     h = run.stats.hist
     nj, ns = h.get("json-history", 0), h.get("sqlite-history", 0)
@@ -1628,6 +1680,13 @@ def main(run):
 
     run.extra["json_histories"] = nj
     run.extra["sqlite_histories"] = ns
+    run.extra["sessions_in_child_interpreters"] = {
+        "driver (XSH.load + Shell('none') + BaseShell._append_history)": h.get("session-driver", 0),
+        "real `python -m xonsh --no-rc -i` fed from a pipe": h.get("session-xonsh", 0),
+        "ending with an empty buffer right after a periodic flush": h.get(
+            "session:ends-with-empty-buffer-after-periodic-flush", 0),
+        "of those with a delayed background flusher": h.get("session:boundary+delay", 0),
+    }
     run.extra["fractions"] = {
         "json read across memory/disk split": frac("json:read-across-split", nj),
         "json read while a flush is held in dump()": frac("json:read-while-flush-in-flight", nj),
@@ -1649,6 +1708,14 @@ def main(run):
         if nj and h.get("json:read-while-flush-in-flight", 0) < 0.1 * nj:
             low.append("json histories with a read during a held flush: %d of %d (< 10 %%)" % (
                 h.get("json:read-while-flush-in-flight", 0), nj))
+        for k, floor in (("session-driver", 40), ("session-xonsh", 12),
+                         ("session:ends-with-empty-buffer-after-periodic-flush", 20), ("session:boundary+delay", 8),
+                         ("session-driver:sqlite", 5), ("session-driver:explicit-history-flush", 5)):
+            if h.get(k, 0) < floor:
+                low.append("%s=%d<%d" % (k, h.get(k, 0), floor))
+        for e in ("unload", "exit", "atexit", "sysexit", "raise", "sigterm"):
+            if h.get("session-driver:end-" + e, 0) < 2:
+                low.append("session-driver:end-%s=%d<2" % (e, h.get("session-driver:end-" + e, 0)))
         for k in ("json:non-ascii", "json:astral", "json:soft-exclusion", "json:hard-exclusion", "json:clear",
                   "json:reopen", "json:at-exit-flush", "json:explicit-release", "json:disk-equals-memory-checked",
                   "sqlite:non-ascii", "sqlite:soft-exclusion", "sqlite:reopen", "sqlite:clear",
@@ -1672,6 +1739,14 @@ def main(run):
         "NaN/Infinity, and negative or out-of-range integer indices on LJNode (history code never passes them)",
         "SQLite connections opened by xonsh get PRAGMA synchronous=OFF from the harness (an append costs 0.4 ms "
         "instead of 20 ms; durability is the subject of C13, not of this property)",
+        "session family: the child is a separate CPython started with PYTHONPATH=<tree> and a private data dir; the "
+        "ways of ending are XSH.unload(), the exit alias, plain end of program (atexit handler only), sys.exit(), an "
+        "unhandled exception and SIGTERM - SIGKILL / power loss belong to C13; the background flusher is delayed by "
+        "0-400 ms at the entry of run() or dump() (driver) or at xonsh/_verif.py's schedule points (real xonsh); "
+        "driver sessions hand xonsh the text, return code and time stamps of each command through "
+        "BaseShell._append_history instead of executing it; in real xonsh sessions outer blanks of a command are "
+        "not compared (the shell records deindent(src)); SQLite driver sessions record their first command after the "
+        "start-up GC thread has finished (C12-F7)",
         "reopen happens on a quiescent object (all flushers joined), as at the start of a new session; "
         "all_items(newest_first=True) of the JSON backend is not compared (ordering across files is not part of "
         "the property)",
